@@ -169,7 +169,7 @@ pub fn get_expr(text: &str) -> Option<String> {
 }
 
 pub fn get_exprs(text: &str) -> Vec<(core::ops::Range<usize>, String)> {
-    let re = Regex::new(r"\{\{(.*)\}\}").unwrap();
+    let re = Regex::new(r"\{\{(.*?)\}\}").unwrap();
     re.find_iter(text)
         .map(|cap| (cap.range(), cap.as_str().to_string()))
         .collect()
